@@ -38,6 +38,8 @@ NEEDS = {r[0]: r[2] for r in REGISTRY}
 FIELD = {"libsnark": recorder.BN128, "libsnarkgg": recorder.BN128, "qaptools": recorder.BN128, "snarkjs": recorder.BN128,
          "zkinterface": recorder.BN128, "zkifbellman": recorder.BLS12_381, "zkifbulletproofs": recorder.CURVE25519}
 ENVS = [None, ""] + NAMES + ["bogus", "SNARKJS", "snarkjs ", "zkif", "libsnark2"]
+FIRSTS = ["pysnark.boolean", "pysnark.fixedpoint", "pysnark.branching", "pysnark.array", "pysnark.pack", "pysnark.linalg",
+          "pysnark.poseidon_hash", "pysnark.ggh_hash"]
 IFACE = ["privval", "pubval", "zero", "one", "fieldinverse", "get_modulus", "add_constraint", "prove"]
 
 CHILD = '''import sys, json, importlib
@@ -63,6 +65,13 @@ if OBJ:
         def add_constraint(self, a, b, c): self.cons.append((a, b, c))
         def prove(self): pass
     sys.modules["pysnark.nobackend"] = _Rec()
+FIRST = %r
+if FIRST:
+    # the first pysnark module the program imports is a library module (it imports the runtime itself): the selection is the same
+    try:
+        importlib.import_module(FIRST)
+    except NotImplementedError:
+        pass          # e.g. a hash module without parameters for the selected backend: raised after the selection was made
 import pysnark.runtime as rt
 b = rt.backend
 if OBJ:
@@ -132,7 +141,7 @@ def run_case(cfg):
     import tempfile, shutil
     tmp = tempfile.mkdtemp(prefix="verif-c19-")
     try:
-        r = subprocess.run([sys.executable, "-c", CHILD % (bool(cfg.get("interactive")), [MOD[n] for n in pre], cfg.get("object"), IFACE)], cwd=tmp, env=envv,
+        r = subprocess.run([sys.executable, "-c", CHILD % (bool(cfg.get("interactive")), [MOD[n] for n in pre], cfg.get("object"), cfg.get("first"), IFACE)], cwd=tmp, env=envv,
                            capture_output=True, text=True, timeout=120, start_new_session=True)
     finally:
         shutil.rmtree(tmp, ignore_errors=True)
@@ -144,7 +153,8 @@ def run_case(cfg):
             res = json.loads(ln[7:])
     desc = "PYSNARK_BACKEND=%r, pre-imported %r, loadable %r%s%s" % (env, pre, sorted(k for k, v in load.items() if v is True),
                                                                     ", qaptools executables present but not executable" if load["qaptools"] == "noexec" else "",
-                                                                  ", interactive session (get_ipython defined)" if cfg.get("interactive") else "")
+                                                                  (", interactive session (get_ipython defined)" if cfg.get("interactive") else "") +
+                                                                  (", first pysnark import is %s" % cfg["first"] if cfg.get("first") else ""))
     if cfg.get("object"):
         if res is None:
             return "%s, backend object (%s) in sys.modules: the runtime failed to start: %s" % (desc, cfg["object"], (r.stderr.strip().splitlines() or ["?"])[-1]), info
@@ -215,6 +225,14 @@ def all_configs():
                     out.append({"env": env, "pre": pre, "load": load})
                     if len(pre) <= 1:
                         out.append({"env": env, "pre": pre, "load": load, "interactive": True})
+    # a library module is the first thing imported (nothing pre-imported): same selection as with the runtime first
+    k = 0
+    for env in ENVS:
+        for load in loads:
+            for first in FIRSTS:
+                k += 1
+                if k % 4 == 0 or first == "pysnark.poseidon_hash" and load["flatbuffers"]:
+                    out.append({"env": env, "pre": [], "load": load, "first": first})
     for env in (None, "snarkjs", "bogus", "nobackend"):
         for kind in ("falsy", "truthy"):
             out.append({"env": env, "pre": [], "load": loads[2], "object": kind})
